@@ -7,6 +7,8 @@ import (
 	"os"
 	"regexp"
 	"runtime/debug"
+	"strconv"
+	"strings"
 	"sync"
 	"time"
 )
@@ -31,6 +33,14 @@ func init() {
 	// a named local time zone with a non-zero offset: results that silently depend on
 	// time.Local differ from the reference
 	time.Local = time.FixedZone("EST", -5*3600)
+	if z := os.Getenv("VERIF_LOCAL_ZONE"); z != "" {
+		// a child process started to evaluate something under another local zone ("NAME:seconds")
+		if i := strings.IndexByte(z, ':'); i > 0 {
+			if off, err := strconv.Atoi(z[i+1:]); err == nil {
+				time.Local = time.FixedZone(z[:i], off)
+			}
+		}
+	}
 	os.Setenv("TZ", "EST5EDT")
 	for _, k := range []string{"DEB_BUILD_PROFILES", "DEB_BUILD_OPTIONS", "DEB_HOST_ARCH", "DEB_BUILD_ARCH", "DEB_TARGET_ARCH", "DEB_HOST_MULTIARCH",
 		"DEB_VENDOR", "DPKG_ROOT", "DPKG_COLORS", "SOURCE_DATE_EPOCH", "DEBEMAIL", "DEBFULLNAME", "GNUPGHOME"} {
